@@ -97,7 +97,7 @@ static CaseResult run_case(Tape &t, const dif::CaseOpt &opt = dif::CaseOpt())
 		int src = nhon + (int)t.below((uint32_t)(nsac + nhost));
 		scn::ScriptClient &sc = E.S(src).sc;
 		std::string what;
-		switch (t.pick({4, 6, 6, 5, 3, 2, 2})) {
+		switch (t.pick({4, 6, 6, 5, 3, 2, 2, 2})) {
 		case 0: { sim::Datagram dg; dg.src = sc.addr; dg.dst = sc.server; dg.data = mal::raw_bytes(t, ms); sim::W.send(dg); what = fmt("raw bytes %zuB", dg.data.size()); break; }
 		case 1: { static const char CMD[] = "vVlLiIzZsSoOyYrRnNpP0123456789abcdefABCDEFgxX-_"; char cmd = t.chance(2, 3) ? CMD[t.below(sizeof CMD - 1)] : 0;
 			sim::Datagram dg; dg.src = sc.addr; dg.dst = sc.server; dg.data = mal::hostile_query(t, c.domain, cmd, ms); sim::W.send(dg); what = fmt("malformed DNS %zuB cmd=%c", dg.data.size(), cmd ? cmd : '-'); break; }
@@ -136,6 +136,21 @@ static CaseResult run_case(Tape &t, const dif::CaseOpt &opt = dif::CaseOpt())
 			sim::W.offer_tun(E.s->srv, pkt); what = fmt("tun packet %zuB", n); ms.hit(n < 24 ? "tun:shorter-than-ip-header" : "tun:packet"); break;
 		}
 		case 5: { static const uint64_t DT[] = {1000, 20000, 1000000, 5000000, 10000000}; uint64_t dt = DT[t.below(5)]; if (advanced + dt > 40000000ull) dt = 1000; advanced += dt; sim::W.run_for(dt); what = fmt("advance %.3fs", dt / 1e6); break; }
+		case 7: {   // a raw-mode frame cut short, sent from a logged-in session's own address; what a careless reader would take from
+			// beyond the datagram is exactly what would make the frame valid (C12: in the differential run that continuation is
+			// placed in the receive buffer right after the datagram)
+			std::vector<int> mine; for (int i = nhon; i < nhon + nsac; i++) if (hs[i].up) mine.push_back(i);
+			if (mine.empty()) break;
+			HonestS &h = hs[mine[t.below((uint32_t)mine.size())]];
+			scn::ScriptClient &own = E.S(h.src).sc;
+			uint8_t hh[16]; ref::login_hash(own.password, own.challenge + 1, hh);
+			Bytes full = refproto::raw_frame(h.raw && t.chance(1, 2) ? 3 : 1, own.userid, Bytes(hh, hh + 16));
+			size_t cut = t.chance(1, 2) ? 3 : 3 + t.below(17);
+			Bytes part(full.begin(), full.begin() + cut), rest(full.begin() + cut, full.end());
+			{ dif::ScopedResidue sr(opt, rest); own.send_raw(part); sim::W.run_for(3000); }
+			what = fmt("raw frame of session user %d cut after %zu bytes", own.userid, cut); ms.hit("rawframe:cut-short");
+			break;
+		}
 		default: {  // tunnel command letter followed by arbitrary bytes
 			static const char CMD[] = "vlizsoyrnp0123456789abcdefVLIZSOYRNPABCDEF";
 			std::string name(1, CMD[t.below(sizeof CMD - 1)]);
@@ -202,7 +217,7 @@ static CaseResult run_case(Tape &t, const dif::CaseOpt &opt = dif::CaseOpt())
 	}
 	if (E.s->srv->state == sim::ST_EXITED && !dead) r.fail("C05:server-exited", "the server exited during the health probe");
 	dif::finish(opt);
-	for (auto &kv : ms.kinds) if (kv.first.find("truncated") != std::string::npos || kv.first.find("past-end") != std::string::npos || kv.first.find("unterminated") != std::string::npos || kv.first.find("pointer") != std::string::npos) r.cls("residue-sensitive-shape");
+	for (auto &kv : ms.kinds) if (kv.first.find("truncated") != std::string::npos || kv.first.find("cut-short") != std::string::npos || kv.first.find("past-end") != std::string::npos || kv.first.find("unterminated") != std::string::npos || kv.first.find("pointer") != std::string::npos) r.cls("residue-sensitive-shape");
 	r.nontrivial = hostile_answers > 0 || ms.kinds.count("rawframe") || ms.kinds.count("tun:shorter-than-ip-header");
 	for (auto &kv : ms.kinds) r.cls(kv.first);
 	if (probed) r.cls("health-probe");
